@@ -262,6 +262,9 @@ func (s *Stack) SetForbidden(hs []*chainhash.Hash) {
 	s.Services.Chains = service.NewChainsService(s.Repo, &p, s.Log, service.DefaultBlockHasher(), s.Services.Notifier)
 }
 
+// Killed is the panic value the fault-injecting repository decorator uses to simulate a process kill.
+type Killed struct{}
+
 func stLetter(st string) string {
 	switch st {
 	case "LONGEST_CHAIN":
@@ -278,6 +281,10 @@ func stLetter(st string) string {
 func AddOutcome(s *Stack, src domains.BlockHeaderSource) (out string) {
 	defer func() {
 		if r := recover(); r != nil {
+			if _, ok := r.(Killed); ok {
+				out = "K" // the harness's own "process killed here" sentinel (C05), not a crash of the service
+				return
+			}
 			out = "P"
 		}
 	}()
